@@ -47,6 +47,9 @@ HAZARDS = {
     "attr-int": "(1).real", "attr-float": "1.5.real", "attr-call": "a.b(c).d", "pow-neg": "(-1) ** -a", "unary-chain": "not -~a", "matmul": "a @ b",
     "listcomp": "[i for i in a if i]", "listcomp2": "[(i, j) for i in a for j in b if i if j]", "dictcomp": "{k: v for k, v in a}", "setcomp": "{i for i in a}", "genexp": "(i for i in a)",
     "dict-star": "{**a, 1: 2}", "set": "{1, 2}", "tuple-star": "(*a, 1)", "tuple1": "(1,)", "empty-tuple": "()", "nested-parens": "((((a))))",
+    "lambda-posonly-default": "lambda p, q=1, /: (p, q)", "lambda-posonly-default-mixed": "lambda p, q=1, /, r=2, *, s=3: p",
+    "listcomp-walrus-if": "[y for x in a if (y := x)]", "call-kw-walrus": "f(k=(w := 1))", "lambda-default-walrus": "(lambda q=(w := 1): q)",
+    "genexp-walrus-cond": "list(z for x in a if (z := x))", "dictcomp-walrus": "{(k := x): k for x in a}", "kwstar-walrus": "f(**{'k': (w := 1)})",
     "yield": "(yield)", "await": "(await a)", "long-binop": " + ".join(["a"] * 40), "starred-list": "[*a, *b]",
 }
 NEST = {
@@ -55,6 +58,10 @@ NEST = {
     "in-binop": "(<E> ** <E>)", "in-not": "(not <E>)", "in-starred": "[*<E>]", "in-cmp": "(<E> < <E> < <E>)", "in-tuple": "(<E>,)",
 }
 TARGETS = ["x", "x, y", "x, *y", "*x, y", "(x, (y, z))", "[x, [y]]", "o.a", "o.a.b", "d[0]", "d[0:1]", "d[i, j]", "o.a, d[0]", "x, (o.a, *d[1:])", "d[f(1)].a", "*o.a,", "x,"]
+DEFS = [
+    "def f(a, b=1, /):\n    return a", "def f(a, /, b=2, *, c=3):\n    return a", "def f(a=0, b=1, /, c=2):\n    return a", "def f(*, a=1, b):\n    return b",
+    "def f(a, *b, c, d=4, **e):\n    return a", "def f(a, b=[1, 2][0], /, *, c={'k': 1}['k']):\n    return a", "def f(a=(w := 1), /):\n    return a",
+]
 IMPORTS = [
     "import os", "import os.path", "import os.path as p", "import a.b.c", "import a.b.c as d", "import os, sys", "import os.path, sys as s, a.b",
     "from os import path", "from os import path as p, sep", "from os.path import join, split as sp", "from . import x", "from .. import x as y", "from .m import x",
@@ -80,6 +87,9 @@ def product_cases(depth):
         for op in ("+=", "//=", "**=", "@="):
             if "," not in t and "*" not in t and "[" != t[0] and "(" != t[0]:
                 yield "c02:targets:aug%s:%d" % (op, i), "%s %s s\n" % (t, op)
+    for i, d in enumerate(DEFS):
+        for form, tpl in (("module", "<D>\n"), ("class", "class K:\n    <D>\n"), ("func", "def outer():\n    <D>\n"), ("decorated", "@dec\n<D>\n")):
+            yield "c02:defs:%s:%d" % (form, i), tpl.replace("<D>", d.replace("\n", "\n    ") if form in ("class", "func") else d)
     for i, imp in enumerate(IMPORTS):
         for form, tpl in (("module", "<I>\n"), ("func", "def f():\n    <I>\n"), ("class", "class K:\n    <I>\n"), ("loop", "for i in s:\n    <I>\n")):
             yield "c02:imports:%s:%d" % (form, i), tpl.replace("<I>", imp.replace("\n", "\n    ") if form != "module" else imp)
@@ -265,8 +275,11 @@ def main(tier, seed, collect=None):
     for ch in core.chunked(files, 4):
         sh.append(("corpus", ch, 150 if tier == "quick" else 400, cfgs if tier == "thorough" else [2, 4, 7]))
     total = core.run_shards(run_shard, sh, seed=seed, pid=PID)
+    other_hosts = core.run_on_hosts(PID, ["py310", "py311", "py313"], "quick", seed, total) if tier == "thorough" else []
+
     c = total.c
     cov = {
+        "converter_hosts": [core.HOST] + other_hosts,
         "evaluations": c["executions"],
         "distinct_nontrivial": c["programs_accepted_by_some_configuration"],
         "rule": "every member of the families is one syntactically valid module (distinct key); non-trivial = at least one configuration accepts "
